@@ -543,3 +543,50 @@ pub fn observe_concurrently(parser: &P, k: usize, policy: Policy, step: u64) -> 
     });
     Some(outs)
 }
+
+// ---------------------------------------------------------------------------------------------
+// Use of the rest of the public API between validations
+// ---------------------------------------------------------------------------------------------
+
+/// What a client (a language server) does with the trees it got, on the thread that got them:
+/// symbol walks, searches that stop early, lookups by position, formatting. All of it is
+/// read-only by contract; whatever it leaves behind on the thread must not reach a later
+/// validation. Panics are swallowed (C01-C20 other than the claimed ones are not judged here).
+pub fn use_public_api(o: &Outcome) {
+    use aidl_parser::symbol::Symbol;
+    use aidl_parser::traverse::{self, SymbolFilter};
+    let m = match o {
+        Outcome::Ok(m) => m,
+        Outcome::Panic(_) => return,
+    };
+    for r in m.values() {
+        let t = match &r.ast {
+            Some(t) => t,
+            None => continue,
+        };
+        let _ = catch_unwind(AssertUnwindSafe(|| {
+            let mut n = 0usize;
+            traverse::walk_symbols(t, SymbolFilter::All, |s| {
+                n += s.get_name().map(|x| x.len()).unwrap_or(0);
+                let _ = s.get_details();
+                let _ = s.get_signature();
+            });
+            // searches that stop at the first hit of each kind of symbol
+            let _ = traverse::find_symbol(t, SymbolFilter::All, |s| matches!(s, Symbol::Type(_)));
+            let _ = traverse::find_symbol(t, SymbolFilter::All, |s| matches!(s, Symbol::Arg(..)));
+            let _ = traverse::find_symbol(t, SymbolFilter::ItemsAndItemElements, |s| matches!(s, Symbol::Method(..) | Symbol::Field(..)));
+            let _ = traverse::find_symbol(t, SymbolFilter::ItemsOnly, |_| true);
+            let _ = traverse::filter_symbols(t, SymbolFilter::All, |s| matches!(s, Symbol::Import(_)));
+            // lookups by position: at every type and a little beside it
+            let mut positions: Vec<(usize, usize)> = Vec::new();
+            traverse::walk_types(t, |ty| positions.push(ty.symbol_range.start.line_col));
+            for (l, c) in positions.into_iter().take(12) {
+                let _ = traverse::find_symbol_at_line_col(t, SymbolFilter::All, (l, c));
+                let _ = traverse::find_symbol_at_line_col(t, SymbolFilter::All, (l, c + 1));
+            }
+            traverse::walk_methods(t, |m| n += m.args.len());
+            traverse::walk_args(t, |_, a| n += a.name.as_ref().map(|x| x.len()).unwrap_or(0));
+            n
+        }));
+    }
+}
